@@ -73,6 +73,10 @@ func fakeFault(c fCase) fakemc.Fault {
 
 const fNow = 1700000000
 
+// hangAfter: how long a request may stay unanswered (and its connection open) before that counts
+// as a hang. In-memory pipes answer in microseconds; the margin is for a loaded machine.
+const hangAfter = 15 * time.Second
+
 var fKeys = []string{"a", "bb"}
 
 // runFault executes setup fault-free, then the command with the fault armed. Returns the
@@ -135,7 +139,7 @@ func runFault(c fCase, arm bool) fObs {
 			b.L2.SetFault(s2+c.Idx, fakeFault(c))
 		}
 	}
-	reply, closed, err := cn.Exchange(enc(c.Cmd), 5*time.Second)
+	reply, closed, err := cn.Exchange(enc(c.Cmd), hangAfter)
 	o.reply, o.closed = reply, closed
 	if err != nil {
 		o.hang = true
@@ -149,7 +153,7 @@ func runFault(c fCase, arm bool) fObs {
 		if c.Proto == "text" {
 			g.Items[0].Opaque = 0
 		}
-		if _, _, err := cn.Exchange(enc(g), 5*time.Second); err != nil {
+		if _, _, err := cn.Exchange(enc(g), hangAfter); err != nil {
 			o.hangAfter = true
 		}
 	}
@@ -161,7 +165,7 @@ func runFault(c fCase, arm bool) fObs {
 	rc := stack.Dial(b, cfg)
 	for _, k := range fKeys {
 		g := stack.Req{Kind: "get", Items: []stack.GItem{{Key: []byte(k)}}}
-		rep, cl, err := rc.Exchange(enc(g), 5*time.Second)
+		rep, cl, err := rc.Exchange(enc(g), hangAfter)
 		if err != nil || cl {
 			o.crashed = "a fresh connection could not read after the fault"
 			break
@@ -329,8 +333,16 @@ func c10(e *env, chunkedL1 bool) {
 			}
 		}
 	}
+	nhang := 0
 	for _, c := range cases {
+		if nhang >= 6 {
+			w.Count("cases-skipped-after-6-hangs") // every hang waits for its timeout: enough counterexamples
+			continue
+		}
 		o := runFault(c, true)
+		if o.hang || o.hangAfter {
+			nhang++
+		}
 		if o.crashed != "" {
 			w.Fail(rig.GoFailure{Kind: "counterexample", What: o.crashed, Input: c})
 			continue
@@ -340,12 +352,12 @@ func c10(e *env, chunkedL1 bool) {
 				b, _ := json.Marshal(c)
 				fmt.Fprintf(os.Stderr, "hang: %s\n", b)
 			}
-			w.Fail(rig.GoFailure{Kind: "counterexample", What: "the client request neither completed nor was its connection closed within 5 s after a backend fault (hang)",
+			w.Fail(rig.GoFailure{Kind: "counterexample", What: "the client request neither completed nor was its connection closed within 15 s after a backend fault (hang)",
 				Input: c, Detail: fmt.Sprintf("%d reply bytes received", len(o.reply)), Tags: hangTags(c)})
 			continue
 		}
 		if o.hangAfter {
-			w.Fail(rig.GoFailure{Kind: "counterexample", What: "after a backend fault was answered, the next command on the same client connection neither completed nor was the connection closed within 5 s (hang)",
+			w.Fail(rig.GoFailure{Kind: "counterexample", What: "after a backend fault was answered, the next command on the same client connection neither completed nor was the connection closed within 15 s (hang)",
 				Input: c, Tags: hangTags(c)})
 			continue
 		}
